@@ -130,7 +130,8 @@ def slot_queries(pid, entries, quickmax, thoroughmax, extra=None, nmin=1, extra_
                 if e == "vh_attach":
                     for tv in list(range(0, (wdw[1] if wdw else n) + 1)) + [-1]:
                         d2 = dict(d); d2["ATTVAL"] = tv
-                        t2 = tiers if n <= 2 else ("thorough",)
+                        # quick: all of n <= 2, plus at n = 3 the chain and star forests over the full window (re-attachment to a descendant / sibling)
+                        t2 = ("quick", "thorough") if (n <= 2 or (n == 3 and wdw[:2] == (0, 3) and fv in ((-1, 0, 1), (-1, 0, 0)))) else ("thorough",)
                         qs.append(Q(name + f"_t{tv if tv >= 0 else 'o'}", src, e, d2, unwind=n + 5, unwindset=lib, tiers=t2, ub=True))
                     continue
                 qs.append(Q(name, src, e, d, unwind=n + 5, unwindset=lib, tiers=tiers, ub=True))
@@ -205,7 +206,7 @@ def c17():
             if k > {"vh_remove": 1, "vh_insert": 0, "vh_closest": 1}[e]: continue       # larger K: no verdict within the caps (DESIGN 3.17 status)
             tiers = ("quick", "thorough") if k <= quickmax else ("thorough",)
             qs.append(Q(f"{e[3:]}_k{k}", "C17_zones.cpp", e, {"K": k}, unwind=k + 6,
-                        unwindset={"find_exclusion_under": 5, "remove": k + 3, "insert": k + 3, "closest": k + 3, "VectorINS_5Zones9Exclusion": k + 3, "erase": k + 3, "_insert_default": k + 3}, tiers=tiers, cc_defs=["LL_REALLOC_UNREACHABLE"]))
+                        unwindset={"find_exclusion_under": 5, "remove": k + 3, "insert": k + 3, "closest": k + 3, "lid:VectorINS_5Zones9Exclusion": k + 3, "erase": k + 3, "_insert_default": k + 3}, tiers=tiers, cc_defs=["LL_REALLOC_UNREACHABLE"]))
     qs.append(Q("initialise", "C17_zones.cpp", "vh_initialise", {"K": 1}, unwind=8))
     return qs
 
@@ -240,15 +241,76 @@ META["C01"] = {
 }
 def c01_name():
     qs = []
-    for L in (6, 18, 19, 20, 26, 32):
-        tiers = ("quick", "thorough") if L <= 26 else ("thorough",)
+    for L in (6, 18, 19, 20, 26, 32, 34, 38):
+        tiers = ("quick", "thorough") if L <= 32 else ("thorough",)
         qs.append(Q(f"name_len{L}", "nametable.cpp", "vh_name", {"LEN": L}, unwind=8,
                     unwindset={"vh_bytes": L + 1, "Locale2Lang": 260, "getMsId": 5, "strncmp": 6, "strchr": 5, "strlen": 5, "NameTable": 8, "getName": 8, "setPlatformEncoding": 6, "getLanguageId": 6, "validate": 6, "vh_stub_locale2lang": 28}, tiers=tiers,
                     stubs=["_ZN9graphite211Locale2LangC2Ev"]))
     return qs
-C01_PARTS = [c01_cmap, c01_name]
+def c01_decoder():
+    qs = []
+    for L in (1, 2, 3, 4, 5, 6):
+        for rl in (1, 2):
+            if L >= 5 and rl == 2: continue
+            tiers = ("quick", "thorough") if L <= 3 else ("thorough",)
+            qs.append(Q(f"decode_len{L}_rl{rl}", "decoder.cpp", "vh_decode", {"LEN": L, "RLEN": rl, "NS": 0}, unwind=L + 4,
+                        unwindset={"is_impl": 70, "Code": 60, "decoder": 258, "vh_decode": L + 4, "load": L + 2, "apply_analysis": L + 3, "fetch_opcode": L + 2, "_ZN9graphite22vm7Machine4Code7decoder4loadEPKhS5_.recursion": 2,
+                                   "_ZN9graphite22vm7Machine4Code7decoder11emit_opcodeENS0_6opcodeERPKh.recursion": 2}, tiers=tiers,
+                        timeout=1700 if L > 3 else None))
+    return qs
+C01_PARTS = [c01_cmap, c01_name, c01_decoder]
 @prop("C01")
 def c01():
     qs = []
     for f in C01_PARTS: qs += f()
+    return qs
+
+# ------------------------------------------------------------------------------------------- C16
+META["C16"] = {
+    "bounds": "Face::Table (the only path by which the library obtains and releases provider buffers): construction on arbitrary table bytes of concrete length (4..24), tags Silf/cmap/head/name, any version threshold; move construction and assignment; destruction; compressed path with LZ4 header and 13..14 compressed bytes",
+    "outside": "face-level sequences (GlyphCache loader, CachedCmap, NameTable, Feat/Sill, load_face failure paths) and the 'no get_table after preloadAll' clause - see DESIGN 3.16 status; allocation failure",
+    "assumptions": ["get_table returns a fresh exact-size buffer; release_table frees it (harness/loader.h)"],
+}
+@prop("C16")
+def c16():
+    qs = []
+    for tag, nm in ((0x53696c66, "Silf"), (0x636d6170, "cmap"), (0x68656164, "head"), (0x6e616d65, "name")):
+        for L, hdr in ((4, 0), (12, 0), (20, 0), (20, 0x08000003), (20, 0x08000010), (20, 0x10000010)) + (((54, 0),) if nm == "head" else ()):
+            if hdr and nm != "Silf": continue
+            qs.append(Q(f"table_{nm}_len{L}_hdr{hdr:x}", "C16_table.cpp", "vh_table", {"TAGV": tag, "LEN": L, "HDRW": hdr}, unwind=8,
+                        unwindset={"vh_bytes": L + 1, "read_literal": L, "safe_copy": 40, "overrun_copy": 8, "fast_copy": 8, "decompress": L // 3 + 2}, leak=False))
+    for L, out in ((21, 14), (21, 16), (22, 16)):
+        qs.append(Q(f"table_Silf_lz4_len{L}_out{out}", "C16_table.cpp", "vh_table", {"TAGV": 0x53696c66, "LEN": L, "HDRW": 0x08000000 | out}, unwind=8,
+                    unwindset={"vh_bytes": L + 1, "read_literal": L, "safe_copy": 40, "overrun_copy": 8, "fast_copy": 8, "decompress": L // 3 + 2},
+                    tiers=("thorough",), timeout=1700))
+    return qs
+
+# ------------------------------------------------------------------------------------------- C15
+META["C15"] = {
+    "bounds": "Segment::positionSlots / Slot::finalise / floodShift / gr_slot_advance_X/Y on NS = 1..2 slots (thorough 3) in every attachment forest, both directions, final and non-final, symbolic finite shifts/advances/attachment points/justification/glyph boxes with |v| <= 2^16 (bit-precise IEEE-754), unhinted font with scale 2^k, k in {-2, 1, 3}: origins and advances with the font are bit-exactly scale x the design-unit values",
+    "outside": "non-power-of-two scales ('up to single-precision rounding' is claimed only in its exact instance); hinted fonts; collision offsets (no collision info in the world); font-independence of glyph ids/attachments (passes run with font = 0 by construction: Segment::finalise is the only consumer)",
+    "assumptions": ["slots' glyph ids index the glyph cache", "no reordering between the two runs (currdir == isRtl)"],
+}
+@prop("C15")
+def c15():
+    qs = []
+    for k in (-2, 1, 3):
+        qs += slot_queries("C15", ["vh_scale"], 2, 3, extra={"KEXP": k}, src="posn.cpp", with_forest=True)
+    for q in qs: q.name = q.name + "_k" + str(q.defines["KEXP"]).replace("-", "m")
+    return qs
+
+# ------------------------------------------------------------------------------------------- C06
+META["C06"] = {
+    "bounds": "Pass::runFSM / FiniteStateMachine::reset / Rules::accumulate_rules on arbitrary INV_pass tables (3 states, 2 transition rows, 2 success states, 2 columns, 3 glyph ids + 1 unknown, 2 rules with sort keys 1..7, rule map of 3 sorted entries), streams of 1..3 slots (thorough 4) with symbolic glyph ids, every cursor position; Pass::adjustSlot for every cursor/high-water position and return value -3..3",
+    "outside": "the composition 'compiled GDL font => final glyphs equal the GDL semantics' (no GDL compiler in the repository; tables being a correct DFA of a rule set cannot be an assumption of a bounded query); constraint evaluation order (findNDoRule/testConstraint) and pass sequencing (Silf::runGraphite) - not yet harnessed; opcode effects: see C03-C05",
+    "assumptions": ["INV_pass: the guarantees readPass/readRanges/readStates/readRules establish (harness/fsm.cpp make_pass)"],
+}
+@prop("C06")
+def c06():
+    qs = []
+    for n in (1, 2, 3, 4):
+        tiers = ("quick", "thorough") if n <= 3 else ("thorough",)
+        for st in range(n):
+            qs.append(Q(f"runfsm_n{n}_at{st}", "fsm.cpp", "vh_runfsm", {"NS": n, "WSTART": st}, unwind=n + 6, unwindset={"accumulate_rules": 5, "runFSM": n + 2, "reset": 3, "make_pass": 8}, tiers=tiers))
+        qs.append(Q(f"adjust_n{n}", "fsm.cpp", "vh_adjust", {"NS": n}, unwind=n + 6, unwindset={"adjustSlot": 6, "make_pass": 8}, tiers=tiers))
     return qs
